@@ -267,7 +267,9 @@ def genTabFamily (tagp : String) (tier : String) (seed : Nat) (both : Bool) : Ar
     if rowBound s > 256 then continue
     let (id, rng'') := pickA idPoolTab rng
     rng := rng''
-    let kf := if kfExtra ≠ "" then kfExtra else if supported s then "" else "C02-regex-shape"
+    let kf := if kfExtra ≠ "" then kfExtra
+      else if tagp = "c04" && wandBelowRoot s then "C04-wand-inside-combination"
+      else if supported s then "" else "C02-regex-shape"
     let mk := fun (o : Tab.Opts) (sfx : String) =>
       let c := tabCase s!"{tagp}-{i}{sfx}" kind s id o
       { c with note := Json.mkObj [("kf", (kf : Json))] }
